@@ -602,9 +602,7 @@ class SelfPath(Path):
         self.volatile = True
 
     def __str__(self) -> str:
-        return self.path.env.self_token + "".join(
-            str(selector) for selector in self.path.selectors
-        )
+        return self.path.env.self_token + self.path.selectors_str()
 
     def evaluate(self, context: FilterContext) -> object:
         return self._nodes(context, context.current)
@@ -646,9 +644,7 @@ class FilterContextPath(Path):
         self.volatile = False
 
     def __str__(self) -> str:
-        return self.path.env.filter_context_token + "".join(
-            str(selector) for selector in self.path.selectors
-        )
+        return self.path.env.filter_context_token + self.path.selectors_str()
 
     def evaluate(self, context: FilterContext) -> object:
         return self._nodes(context, context.extra_context)
